@@ -121,6 +121,25 @@ def run(ctx):
             add(st, 'NotEqual', v, m, 'mutant-ne')
             w = rnd.choice(vals)
             add(st, 'Equal', v, w, 'pair'); add(st, 'Equal', w, v, 'pair-sym')
+        # numbers that are different but close: neighbouring doubles (1 ulp apart), tiny magnitudes, 0.1 + 0.2 against 0.3, an integer
+        # against the doubles next to it — as scalars and as leaves of pairs, lists and concatenations (equality is exact)
+        import struct as _st
+        def _next(x, k=1):
+            bits = _st.unpack('<q', _st.pack('<d', x))[0]
+            return _st.unpack('<d', _st.pack('<q', bits + (k if x >= 0 else -k)))[0]
+        near = []
+        for x in (0.3, 1.0, 1.5, 100.0, 1e15, 1e-300, 5e-324, 2.2250738585072014e-308, -0.3, -1.0, 4503599627370496.0, 0.1):
+            near += [(x, _next(x)), (x, _next(x, 2)), (_next(x), x)]
+        near += [(0.1 + 0.2, 0.3), (0.0, 5e-324), (0.0, 1.5e-16), (1.5e-16, 3.0e-16), (0.0, 3.0e-16), (1e-300, 2e-300), (0.0, -0.0), (1e-17, 1.1e-16)]
+        shapes = ['%s', '(p (i 1) %s)', '(l (i 1) %s)', '(l %s (cl 97))', '(cat (i 1) %s)', '(l (l %s))']
+        for x, y in near:
+            for sh in shapes:
+                for st in opgen.STORES:
+                    add(st, 'Equal', sh % fterm(x), sh % fterm(y), 'float-neighbours'); add(st, 'NotEqual', sh % fterm(x), sh % fterm(y), 'float-neighbours')
+        for k in (1, 2, 3, 16777216, 2147483647, -2147483648):
+            for y in (_next(float(k)), _next(float(k), -1) if k > 0 else _next(float(k), 1)):
+                for st in opgen.STORES:
+                    add(st, 'Equal', f'(i {k})', fterm(y), 'int-float-neighbours'); add(st, 'Equal', fterm(y), f'(i {k})', 'int-float-neighbours')
         # equivalent spellings: list vs concatenation of its parts, char vs one-element text
         for _ in range(n // 4):
             xs = [gen_values(rnd, 1) for _ in range(rnd.randint(0, 3))]
